@@ -210,6 +210,22 @@ pub open spec fn seq_sum_(s: Seq<usize>) -> int decreases s.len() { if s.len() =
     # open finding: validate() bounds the declared numbers from below only and the reduction flag is never compared with the field's: rows[Alu] = usize::MAX overflows the AIR's allocation size, a flipped alu_quintic_trinomial panics in create_alu_air
     mg.ensures('H_the_declared_row_counts_and_the_reduction_flag_are_checked_before_the_airs_are_built', 'ret is Ok ==> declared_shape_fits_the_air_constructors(proof)')
     fns.append(mg)
+    # ---- verify_fri_circuit[top_height_guard]: the fold chain of a query starts from a reduced opening AT the height of the FRI domain (a schedule taller than every committed matrix is a shape error)
+    V_ = 'recursion/src/pcs/fri/verifier.rs'
+    tg = u.extract(V_, '', 'verify_fri_circuit', 'verify_fri_circuit[top_height_guard]')
+    m1 = re.search(r'if reduced_by_height\.is_empty\(\) \{', tg.body)
+    m2 = re.search(r'let initial_folded_eval = [^;]*;', tg.body)
+    if not m1 or not m2 or m2.start() < m1.start():
+        raise ExtractError('lost anchor in verify_fri_circuit[top_height_guard]: `if reduced_by_height.is_empty() {` .. `let initial_folded_eval = ..;`')
+    tg.body = '{\n' + tg.body[m1.start():m2.end()] + '\n Ok(initial_folded_eval) }'
+    tg.rewrites.append(('R13', 'function body := from `if reduced_by_height.is_empty()` through `let initial_folded_eval = ..;`, then Ok(initial_folded_eval)', 'everything else of the per-query loop'))
+    tg.set_sig('R11', 'fn verify_fri_circuit_top_guard(reduced_by_height: &Vec<(usize, Target)>, log_max_height: usize) -> Result<Target, VerificationError>', sliced=True)
+    tg.erase_error_messages('VerificationError::InvalidProofShape')
+    tg.rewrite_re('R9', r'debug_assert!\(([^;]*)\);', r'assert(\1);', min_count=0)
+    tg.rewrite_re('R11', r'reduced_by_height\.is_empty\(\)', 'reduced_by_height.len() == 0', min_count=0)
+    tg.ensures('the_fold_chain_starts_from_a_reduced_opening_at_the_height_of_the_fri_domain',
+               'ret matches Ok(t) ==> reduced_by_height@.len() > 0 && reduced_by_height@[0].0 == log_max_height && t == reduced_by_height@[0].1')
+    fns.append(tg)
     # ---- cap split (NO precondition): verify_batch_circuit / verify_batch_circuit_from_extension_opened
     M = 'recursion/src/pcs/mmcs.rs'
     for fn in ('verify_batch_circuit', 'verify_batch_circuit_from_extension_opened'):
